@@ -73,3 +73,17 @@ func zzUnwrap(rv reflect.Value) reflect.Value {
 	}
 	return rv
 }
+
+func zzLitValue(v interface{}) reflect.Value { return reflect.ValueOf(v) }
+
+// zzOwnBinding: the int64 bound to name in sc itself (not in its parents).
+func zzOwnBinding(sc *env.Env, name string) (int64, bool) {
+	for _, s := range sc.GetValueSymbols() {
+		if s == name {
+			v, err := sc.Get(name)
+			i, ok := v.(int64)
+			return i, err == nil && ok
+		}
+	}
+	return 0, false
+}
